@@ -170,6 +170,9 @@ func stubFsLstat(name string) (fs.FileInfo, error) {
 		if base == "sub" {
 			return &vFileInfo{name: base, dir: true}, nil
 		}
+		if base == "0link" {
+			return &vFileInfo{name: base, link: true}, nil
+		}
 		for _, f := range d.files {
 			if f.name == base && (f.state == vFileDangle || f.state == vFileVanish) {
 				return &vFileInfo{name: base, link: true}, nil
@@ -187,6 +190,9 @@ func stubFsLstat(name string) (fs.FileInfo, error) {
 func stubFsStat(name string) (fs.FileInfo, error) {
 	m := vfs
 	if d := m.dirByPath(filepath.Dir(name)); d != nil {
+		if filepath.Base(name) == "0link" {
+			return &vFileInfo{name: "0link", dir: true}, nil
+		}
 		for _, f := range d.files {
 			if f.name == filepath.Base(name) && (f.state == vFileDangle || f.state == vFileVanish) {
 				return nil, vPathErr("stat", os.ErrNotExist)
@@ -218,6 +224,8 @@ func stubReadDirNames(dirname string) ([]string, error) {
 			}
 		}
 		if d.noise {
+			// "0link" is a symbolic link to a directory; it sorts before the Spec files
+			names = append([]string{"0link"}, names...)
 			names = append(names, "c.yml", "d.txt", "e.json.tmp", "sub")
 		}
 		return names, nil // already in lexical order
@@ -296,6 +304,7 @@ func vMaterialise(m *vFS) {
 			os.WriteFile(filepath.Join(d.path, "d.txt"), []byte("x"), 0o644)
 			os.WriteFile(filepath.Join(d.path, "e.json.tmp"), []byte("x"), 0o644)
 			os.MkdirAll(filepath.Join(d.path, "sub"), 0o755)
+			os.Symlink(filepath.Join(d.path, "sub"), filepath.Join(d.path, "0link"))
 			os.WriteFile(filepath.Join(d.path, "sub", "x.json"), []byte(`{"cdiVersion":"0.6.0","kind":"v0/c","devices":[{"name":"sub","containerEdits":{"env":["A=b"]}}]}`), 0o644)
 		}
 		if d.state == vDirUnread {
